@@ -5,14 +5,23 @@
 # usage: legs/C11.quick.sh <seed> <tier>
 ROOT="$(cd "$(dirname "$0")/.." && pwd)"
 EV="${VERIF_EVIDENCE_DIR:-$ROOT/evidence}/C11.json"
-SCR=$(mktemp -d /tmp/verif-c11.XXXXXX) || { echo "INCONCLUSIVE property=C11 reason=mktemp"; exit 3; }
+# Fixed scratch path: the codegen binary bakes CARGO_MANIFEST_DIR in at compile time, so a stable
+# path keeps cargo's fingerprints valid between runs; serialised with a lock, removed afterwards.
+SCR=/tmp/verif-c11-scratch
+exec 9>/tmp/verif-c11.lock; flock 9
+rm -rf "$SCR"; mkdir -p "$SCR" || { echo "INCONCLUSIVE property=C11 reason=cannot create $SCR"; exit 3; }
 trap 'rm -rf "$SCR"' EXIT
 export CARGO_NET_OFFLINE=true CARGO_TARGET_DIR="$ROOT/target/codegen-target"
 rsync -a --exclude target --exclude .git /repo/ "$SCR/repo/" || { echo "INCONCLUSIVE property=C11 reason=rsync"; exit 3; }
 ( cd "$SCR/repo" && timeout 1500 cargo run -q -p codegen --offline ) > "$ROOT/target/codegen.log" 2>&1
 rc=$?
+if [ $rc -ne 0 ] && [ $rc -ne 124 ] && ! grep -q "could not compile" "$ROOT/target/codegen.log"; then
+  # a stale binary (compiled for another checkout path) is rebuilt once from scratch
+  ( cd "$SCR/repo" && cargo clean -q -p codegen --offline; timeout 1500 cargo run -q -p codegen --offline ) > "$ROOT/target/codegen.log" 2>&1
+  rc=$?
+fi
 if [ $rc -ne 0 ]; then
-  tail -15 "$ROOT/target/codegen.log"
+  grep -E "panicked|error" -A4 "$ROOT/target/codegen.log" | head -30
   if [ $rc -eq 124 ]; then echo "INCONCLUSIVE property=C11 reason=watchdog leg=regeneration"; exit 3; fi
   echo "BUILD-FAILED the codegen binary did not build/run on the current tree (not a verdict)"; exit 2
 fi
